@@ -18,4 +18,6 @@ void harness(void)
     if (rv == -1 && xv_errno == ENOENT) XV_CANARY("ENOENT");
     if (rv == -1 && xv_errno == ETIMEDOUT) XV_CANARY("all exhausted, last one timed out");
     if (rv == -1 && xv_errno == ECONNREFUSED) XV_CANARY("all exhausted, last one refused");
+    /* (a run in which both tracks are exhausted and EAGAIN is reported nevertheless is what the failed obligations
+     *  EAGAIN_only_while_in_progress / else_errno_of_the_last_track describe: see the report) */
 }
